@@ -600,6 +600,10 @@ class Inliner(object):
                 and not (isinstance(v, ast.Name) and v.id in stored and v.id != p)
             if direct:
                 subst[p] = v
+            elif isinstance(v, ast.Name) and p in stored and self._dead_after(ctx['fn'], fn, v.id, call, at, p):
+                # the helper re-binds its parameter; the caller's variable passed for it is not read again, so the
+                # helper can work on the caller's variable itself
+                names[p] = v.id
             else:
                 new = p if p not in caller_names else '%s_i%d' % (p, tag)
                 names[p] = new
@@ -688,6 +692,27 @@ class Inliner(object):
         h.uses += 1
         self.log.append('%s inlined into %s (line %d, as %s)' % (h.qual, ctx['qual'], getattr(at, 'lineno', 0), mode))
         return out
+
+    def _dead_after(self, caller, helper, name, call, at, param):
+        """The caller's local ``name`` is read only by this call (as a plain argument), the call is not inside a loop,
+        and the helper does not use that name itself."""
+        loads = 0
+        stack = [caller]
+        while stack:
+            n = stack.pop()
+            if n is helper:
+                continue
+            if isinstance(n, ast.Name) and n.id == name and isinstance(n.ctx, ast.Load):
+                loads += 1
+            if isinstance(n, (ast.For, ast.While)) and any(x is at for x in ast.walk(n)):
+                return False
+            stack.extend(ast.iter_child_nodes(n))
+        in_call = sum(1 for a in list(call.args) + [k.value for k in call.keywords] if isinstance(a, ast.Name) and a.id == name)
+        if loads != in_call or in_call != 1:
+            return False
+        if name != param and any(isinstance(x, ast.Name) and x.id == name for x in ast.walk(helper)):
+            return False
+        return True
 
     # ------------------------------------------------------------------ drop
     def _drop_unused(self):
